@@ -222,6 +222,9 @@ inductive Adapter where
   | compact                             -- `[x for x in rv if x]` of a list
   | nullify                             -- `rv if rv else None`
   | boom (onRequest : Bool)             -- raises ValueError in process_req_args / in process_response
+  -- harness adapters that REBIND a field of `req_args` to a new object (they never touch the caller's):
+  | addParam (k v : Str)                -- `req_args.params = list(pairs of req_args.params) + [(k, v)]`
+  | wrapData (key : Str)                -- `req_args.data = {key: req_args.data}` for a structured body
   deriving DecidableEq, Repr
 
 /-- `BAuthConn.Adapter(login, password)` -/
@@ -370,6 +373,24 @@ def mkBody (data : Body) (h : Dict) : Option (List Nat) × Dict :=
 dict object the adapters wrote to) -/
 def finalHeaders (impl : Impl) (ra : RA) (data : Body) : Dict :=
   (mkBody data (withId impl.sendIds ra.headers).1).2
+
+/-- `req_args.params` after one adapter: only the params adapter of the harness rebinds it -/
+def paramStep (p : Option UDict) : Adapter → Option UDict
+  | .addParam k v => some ((match p with | some l => l | none => []) ++ [(k, v)])
+  | _ => p
+
+/-- `req_args.params` after the adapters of the chain (the fields of `RequestArguments` are independent:
+no adapter reads one field to write another) -/
+def finalParams (as : List Adapter) (p : Option UDict) : Option UDict := as.foldl paramStep p
+
+/-- `req_args.data` after one adapter -/
+def bodyStep (b : Body) : Adapter → Body
+  | .wrapData key => match b with
+    | .json v => .json (.obj (.cons key v .nil))
+    | other => other
+  | _ => b
+
+def finalBody (as : List Adapter) (b : Body) : Body := as.foldl bodyStep b
 
 /-- steps 2-4 of `do_request` and the `Request` constructor -/
 def assemble (impl : Impl) (ra : RA) (method : Option Str) (params : Option UDict) (data : Body)
@@ -601,8 +622,10 @@ def request (H : Heap) (c : Nat) (args : Args) : Heap × Except Err Sent :=
       | none => (H2, .error .keyError)
       | some hs =>
         let ra : RA := { path, headers := hs }
-        let s := assemble impl ra args.method pd body (respFold as (decodeResp args.raw args.resp))
-        let H3 := { H2 with dicts := H2.dicts.set w (finalHeaders impl ra body) }
+        -- url, method and body are made from what the adapters left in `req_args`
+        let s := assemble impl ra args.method (finalParams as pd) (finalBody as body)
+          (respFold as (decodeResp args.raw args.resp))
+        let H3 := { H2 with dicts := H2.dicts.set w (finalHeaders impl ra (finalBody as body)) }
         match s.genId with
         | some _ => ({ H3 with impls := H3.impls.set cn.impl { impl with ctr := impl.ctr + 1 } }, .ok s)
         | none => (H3, .ok s)
